@@ -21,6 +21,9 @@ func runHistory(w *bufio.Writer, id int, seed int64, p Profile, lines []string, 
 	}
 	defer os.RemoveAll(root)
 	r := rand.New(rand.NewSource(seed))
+	mo := p.MaxOps
+	p = profile(p.Name) // fresh weight map: histories must not share mutable state
+	p.MaxOps = mo
 	var c Cfg
 	if cfg != nil {
 		c = *cfg
@@ -34,6 +37,7 @@ func runHistory(w *bufio.Writer, id int, seed int64, p Profile, lines []string, 
 	vshim.SetVirtual(virtual)
 	e := NewExec(root, c, w, seed^0x5eed)
 	e.virtual = virtual
+	e.spec.prop = p.Name
 	nextSid = 0
 	if lines != nil {
 		for _, l := range lines {
@@ -42,10 +46,40 @@ func runHistory(w *bufio.Writer, id int, seed int64, p Profile, lines []string, 
 	} else {
 		e.Step("create")
 		n := 0
+		// C05 / C06: exactly ONE crash / storage fault per history, so that what the oracles see
+		// afterwards is attributable to it
+		single := ""
+		switch p.Name {
+		case "C05":
+			single = "crashwrite"
+		case "C06":
+			single = "failwrite"
+		}
+		if single != "" {
+			p.W[single] = 0
+			p.MaxOps = 8 + r.Intn(14)
+		}
 		for n < p.MaxOps {
 			for _, l := range e.GenOp(r, p) {
 				e.Step(l)
 				n++
+			}
+		}
+		if single != "" {
+			for k := range p.W {
+				p.W[k] = 0
+			}
+			p.W[single] = 1
+			for _, l := range e.GenOp(r, p) {
+				e.Step(l)
+			}
+			p = profile(p.Name)
+			p.W[single] = 0
+			for n = 0; n < 5; {
+				for _, l := range e.GenOp(r, p) {
+					e.Step(l)
+					n++
+				}
 			}
 		}
 		for _, l := range []string{"count", "all", "dump", "fs"} {
